@@ -135,6 +135,7 @@ pub fn run(ctx: &Ctx) -> i32 {
             src.push(b'\n');
         }
         let scheds = if docs[0].nodes() > 10000 { [Sched::All, Sched::Fixed(4096), Sched::Random(rng.next(), 8192)] } else { [Sched::One, Sched::Fixed(*rng.pick(&[2usize, 3, 5, 4096])), Sched::Random(rng.next(), 16)] };
+        let mut own_outputs: Vec<(Fmt, Vec<u8>)> = vec![];
         for f in ALL {
             let input: Vec<u8> = if f == Fmt::Toml {
                 // TOML holds one document, which must be representable
@@ -161,17 +162,62 @@ pub fn run(ctx: &Ctx) -> i32 {
             acc.count(&format!("outputs_{}_{}", f.name(), if n_docs > 1 && f != Fmt::Toml { "multi" } else { "single" }));
             let x = STREAMING[(i + f.idx()) % 3];
             judge(&o.out, f, x, &scheds, acc);
+            if detect_slice(&o.out) == Ok(Some(f)) && o.out.len() < 100_000 {
+                own_outputs.push((f, o.out));
+            }
+        }
+        // the same outputs, one after the other, through ONE translator without -f: what the translator
+        // has seen before must not change how the next output is recognised
+        if own_outputs.len() >= 2 {
+            use crate::run::{run_history, Call};
+            let x = STREAMING[i % 3];
+            let rot = i % own_outputs.len();
+            own_outputs.rotate_left(rot);
+            own_outputs.reverse();
+            let calls: Vec<Call> = own_outputs.iter().enumerate().map(|(k, (_, o))| Call { input: o.clone(), from: None, mode: if (i + k) % 2 == 0 { Mode::Slice } else { Mode::Reader(Sched::Fixed(5)) } }).collect();
+            let alone: Vec<_> = calls.iter().map(|c| run_mode(&c.input, &c.mode, None, x)).collect();
+            if alone.iter().all(|o| o.verdict.is_ok()) {
+                acc.evals += 1;
+                acc.count("own_outputs_through_one_translator");
+                let (verdicts, wlog) = run_history(&calls, x, crate::mon::MonWriter::new(), true);
+                let expected: Vec<u8> = alone.iter().flat_map(|o| o.out.iter().copied()).collect();
+                if verdicts.iter().any(|v| !v.is_ok()) || wlog.bytes != expected {
+                    let order: Vec<&str> = own_outputs.iter().map(|(f, _)| f.name()).collect();
+                    acc.violation(Violation {
+                        sig: format!("own outputs through one translator ->{}: recognised differently than alone", x.name()),
+                        case: json!({"part": "one_translator", "order": order, "then_to": x.name(), "outputs_hex": own_outputs.iter().map(|(_, o)| hex(o)).collect::<Vec<_>>(), "outputs_preview": own_outputs.iter().map(|(_, o)| preview(o, 100)).collect::<Vec<_>>()}),
+                        observed: format!("verdicts {:?}; {} bytes written [{}]", verdicts.iter().map(|v| v.show()).collect::<Vec<_>>(), wlog.bytes.len(), preview(&wlog.bytes, 200)),
+                        expected: format!("every call Ok and the {} bytes of the separate translations [{}]", expected.len(), preview(&expected, 200)),
+                    });
+                }
+            }
         }
     });
-    let rule = format!("{} document sets (1-5 collection-rooted documents; maps get a first key from a pool of {} detection-hostile keys: empty, numeric-looking, quoted, YAML/TOML indicators, non-ASCII incl. U+0080-U+07FF) x 4 output formats (TOML: first document, TOML-representable), every 600th set a single root map/array of 65 535..70 000 entries; every output is offered to the detect hook as a slice and under 3 read schedules, and xt(None->X) is compared with xt(F->X) in slice and reader mode; distinct non-trivial = distinct document sets", n, FIRST_KEYS.len());
+    let rule = format!("{} document sets (1-5 collection-rooted documents; maps get a first key from a pool of {} detection-hostile keys: empty, numeric-looking, quoted, YAML/TOML indicators, non-ASCII incl. U+0080-U+07FF) x 4 output formats (TOML: first document, TOML-representable), every 600th set a single root map/array of 65 535..70 000 entries; every output is offered to the detect hook as a slice and under 3 read schedules, and xt(None->X) is compared with xt(F->X) in slice and reader mode; the outputs of one set are also fed one after the other through ONE translator without a source format; distinct non-trivial = distinct document sets", n, FIRST_KEYS.len());
     ev::finish(
-        Finish { ctx, level: "exploration", rule, assumptions: vec!["TOML exceptions decided by the harness's hand-written JSON reader and libyaml-event reader, not by xt".into(), "an empty table is written to TOML as zero bytes; that empty text must still be recognised as TOML".into()], extra: serde_json::Map::new(), exhaustive: false, min_distinct: 1000, must_reach: vec![("pipeline_equivalence_checked".into(), 1000), ("huge_root_collections".into(), 5), ("detected_toml_as_toml".into(), 100), ("detected_yaml_as_yaml".into(), 100), ("detected_msgpack_as_msgpack".into(), 100), ("detected_json_as_json".into(), 100)] },
+        Finish { ctx, level: "exploration", rule, assumptions: vec!["TOML exceptions decided by the harness's hand-written JSON reader and libyaml-event reader, not by xt".into(), "an empty table is written to TOML as zero bytes; that empty text must still be recognised as TOML".into()], extra: serde_json::Map::new(), exhaustive: false, min_distinct: 1000, must_reach: vec![("pipeline_equivalence_checked".into(), 1000), ("huge_root_collections".into(), 5), ("detected_toml_as_toml".into(), 100), ("detected_yaml_as_yaml".into(), 100), ("detected_msgpack_as_msgpack".into(), 100), ("detected_json_as_json".into(), 100), ("own_outputs_through_one_translator".into(), 1000)] },
         acc,
     )
 }
 
 pub fn replay(v: &Value) -> i32 {
     let c = &v["case"];
+    if c["part"].as_str() == Some("one_translator") {
+        use crate::run::{run_history, Call};
+        let Some(x) = c["then_to"].as_str().and_then(Fmt::parse) else { return 2 };
+        let outs: Vec<Vec<u8>> = c["outputs_hex"].as_array().map(|a| a.iter().filter_map(|h| h.as_str().and_then(unhex)).collect()).unwrap_or_default();
+        let calls: Vec<Call> = outs.iter().map(|o| Call { input: o.clone(), from: None, mode: Mode::Slice }).collect();
+        let alone: Vec<u8> = calls.iter().flat_map(|c| run_mode(&c.input, &c.mode, None, x).out).collect();
+        let (verdicts, wlog) = run_history(&calls, x, crate::mon::MonWriter::new(), true);
+        println!("one translator: {:?}\n  got      [{}]\n  separate [{}]", verdicts.iter().map(|v| v.show()).collect::<Vec<_>>(), preview(&wlog.bytes, 300), preview(&alone, 300));
+        return if verdicts.iter().any(|v| !v.is_ok()) || wlog.bytes != alone {
+            println!("VIOLATION property=C10 replay=<this file> (reproduced)");
+            1
+        } else {
+            println!("not reproduced");
+            0
+        };
+    }
     let (Some(o), Some(f), Some(x)) = (c["output_hex"].as_str().and_then(unhex), c["written_as"].as_str().and_then(Fmt::parse), c["then_to"].as_str().and_then(Fmt::parse)) else {
         println!("bad replay case");
         return 2;
